@@ -54,6 +54,11 @@ func lookupScenarios() []*scen {
 			Threads: map[string][]string{"w": {"upd:u", "updget:u"}, "l": {"lookup:u", "read:u"}, "p": {"refresh"}}, Events: []string{"srv-put:u"}},
 		{Name: "S8 Close || LookupSecret(new) || Refresh", Thorough: true, Declared: []string{"d"},
 			Threads: map[string][]string{"closer": {"close"}, "l": {"lookup:u", "read:u"}, "p": {"refresh"}, "reader": {"secret:d", "read:d"}}},
+		{Name: "S11 poll that expires a cached name || NewUpdater(name) || server change", Declared: []string{"d"}, Expiry: 100 * time.Second, ClockAdd: 0,
+			Initial: map[string]cInit{"d": {Ver: 1, LastAccess: -5}, "plum": {Ver: 1, LastAccess: -1000}},
+			Threads: map[string][]string{"poller": {"refresh"}, "w": {"upd:plum", "updget:plum"}}, Events: []string{"srv-put:plum"}},
+		{Name: "S9 Refresh installing an update || LookupSecret(new) || reader", Declared: []string{"d"},
+			Threads: map[string][]string{"p": {"refresh"}, "l": {"lookup:u", "read:u"}, "reader": {"secret:d", "read:d"}}, Events: []string{"srv-put:d"}},
 		{Name: "S6 two lookups of the same new name || poll", Declared: []string{"d"},
 			Threads: map[string][]string{"l1": {"lookup:u", "read:u"}, "l2": {"lookup:u", "read:u"}, "p": {"refresh"}}, Events: []string{"srv-put:u"}},
 	}
